@@ -521,7 +521,9 @@ impl<C: ContentAddrStore> SealedState<C> {
             .keys()
             .map(|k| self.0.stakes.votes(my_epoch, *k))
             .sum();
-        if total_votes > present_votes / 2 * 3 {
+        // strictly more than two thirds of the active voting power must have signed;
+        // compared exactly (no rounding) and in a type that cannot overflow.
+        if num::BigInt::from(present_votes) * 3 > num::BigInt::from(total_votes) * 2 {
             Some(ConfirmedState {
                 state: self.clone(),
                 cproof,
